@@ -80,9 +80,21 @@ def tasks(tier, seed):
             out.append({"family": "SPLIT", "id": text_id(text, c), "text": text, "opts": {"component": c, "backends": sorted(set(bs))}})
             out.append({"family": "SPLIT", "id": text_id(text, c + "|ru"), "text": text,
                         "opts": {"component": c, "backends": ["numpy"], "remove_unused": True}})
-    if tier != "quick":
-        for f in ["ORdmm_Land.ode"]:
-            pass
+    # generated splits: programs of the shared value universe (dependency DAGs, expression / function / conditional
+    # packs, the wide program) with their declarations distributed over 2-3 components, every component as the split
+    V = families.value_programs(tier, seed)
+    pool = [p for p in V if p["family"] in ("DAG", "FUNC", "COND", "WIDE", "EXPR")]
+    pool = families.select(pool, 24 if tier == "quick" else 700, seed)
+    for j, p in enumerate(pool):
+        for k in ((2,) if tier == "quick" else (2, 3)):
+            text = families.componentise(p["text"], k, seed + j)
+            if text is None:
+                continue
+            for c in sorted(set(re.findall(r'expressions\("([^"]+)"\)', text))):
+                b = ["numpy", "jax", "c"][(j + n) % 3]
+                n += 1
+                out.append({"family": "GENSPLIT", "id": text_id(text, c), "text": text,
+                            "opts": {"component": c, "backends": [b], "remove_unused": bool(j % 4 == 3 and b == "numpy")}})
     return out + witness_tasks(PROP)
 
 
@@ -119,7 +131,12 @@ def concrete_with_missing(view, fn, full, missing_names, inputs):
     inp = dict(inputs)
     env = checks.env_from_inputs(full, inputs)
     for k in missing_names:
-        inp[f"m_{k}"] = float(refsem.numeric(("var", k), env, full))
+        try:
+            inp[f"m_{k}"] = float(refsem.numeric(("var", k), env, full))
+        except RefError:
+            # the witness lies outside the domain of this missing variable; the obligation's own domain guard covers
+            # everything the slot depends on, so the slot cannot depend on it (if it did, NaN makes the replay disagree)
+            inp[f"m_{k}"] = float("nan")
     return view.concrete(fn, inp)
 
 
@@ -219,4 +236,7 @@ def work(task):
 
 
 def bounds(tier):
-    return {"models": len(MODELS), "splits": "every component of every model", "inputs": "all reals incl. dt"}
+    return {"models": len(MODELS), "splits": "every component of every model", "inputs": "all reals incl. dt",
+            "generated": "%s programs of the value universe componentised into %s components (declarations distributed by hash; a "
+                         "state stays with its derivative), every component as the split, backend rotating" %
+                         (("24", "2") if tier == "quick" else ("700", "2 and 3"))}
